@@ -191,17 +191,24 @@ class DupGuard:
         self.t = 0.0
         self.last_qu = False
         self.src = None
+        self.is_resp = False
+        self.undone = False  # a response accepted on another socket since may have undone what this one did
 
     def suppressed(self, data, t_ms, src=None):
         # a one-shot (legacy, port != 5353) query needs a unicast reply to its own address and port (C11): only a copy
         # from that same address and port is its duplicate. Datagrams from port 5353 are answered by multicast (or carry
         # a QU question and are exempt), so for them equal bytes suffice.
         same_src = src is None or self.src is None or src[1] == wire.MDNS_PORT or _src_key(src) == self.src
-        return self.data == data and (t_ms - 1000.0) < self.t and not self.last_qu and same_src
+        # (a copy within 50 ms is a link-layer duplicate whatever the other sockets received in between; later ones are
+        # retransmissions, which count again once a response on another socket may have undone the first)
+        fresh = not self.undone or (t_ms - 50.0) < self.t
+        return self.data == data and (t_ms - 1000.0) < self.t and fresh and not self.last_qu and same_src
 
-    def accept(self, data, t_ms, has_qu, src=None):
+    def accept(self, data, t_ms, has_qu, src=None, is_resp=False):
         self.data, self.t, self.last_qu = data, t_ms, has_qu
         self.src = _src_key(src) if src is not None else None
+        self.is_resp = is_resp
+        self.undone = False
 
 
 def _src_key(addr):
@@ -209,8 +216,10 @@ def _src_key(addr):
 
 
 class GuardSet:
-    """The duplicate guards of all sockets of one instance: a datagram accepted on one socket clears the memory of the
-    others (only back-to-back copies are duplicates; traffic on another socket ends the back-to-back run)."""
+    """The duplicate guards of all sockets of one instance: a response accepted on one socket marks the memory of the
+    other sockets that remember a response as undone (it may have undone what that one did, so a later identical copy - a
+    retransmission, say the second goodbye 125 ms later - has to count again). Queries, garbage and whatever else is read
+    from another socket between a datagram and its back-to-back copy change nothing: the copy stays a duplicate."""
 
     def __init__(self):
         self.g = {}
@@ -221,10 +230,13 @@ class GuardSet:
         return not g.suppressed(data, t_ms, src)
 
     def accept(self, sock_label, data, t_ms, has_qu, src=None):
-        self.g.setdefault(sock_label, DupGuard()).accept(data, t_ms, has_qu, src)
-        for k, other in self.g.items():
-            if k != sock_label:
-                other.data = None
+        m = wire.try_decode(data)
+        is_resp = bool(m is not None and m.is_response)
+        self.g.setdefault(sock_label, DupGuard()).accept(data, t_ms, has_qu, src, is_resp)
+        if is_resp:
+            for k, other in self.g.items():
+                if k != sock_label and other.is_resp:
+                    other.undone = True
 
 
 class HostModel:
